@@ -174,6 +174,14 @@ func (p *PreprocReader) Read(buf []byte) (int, error) {
 		}
 	}
 
+	if p.buffer.Len() == 0 {
+		// nothing left to hand out: report a failure of the source or of the
+		// accumulator instead of a clean EOF
+		if err := p.Err(); err != nil {
+			return 0, err
+		}
+	}
+
 	return p.buffer.Read(buf)
 }
 
